@@ -48,6 +48,7 @@ SIMS = {
     "C15": [("MC_sim_Limit.cfg", 200, 2500)],
 }
 FREE = {"quick": 80, "thorough": 1000}
+FREE_LISTENER = {"quick": 250, "thorough": 3000}
 FACT_KEYS = ("stop", "stopPhase", "timeout", "dry", "kill", "anyRepeat")
 
 
@@ -209,6 +210,10 @@ def _run(prop, tier, seed, replay, rep, vh, work):
         fam0 = FAMILIES[prop][0][0]
         jobs.append((["sched", "-free", "-family", fam0, "-count", str(FREE[tier]), "-seed", str(seed * 31 + 5), "-first", str(first)],
                      os.path.join(tdir, "free.ndjson"), os.path.join(tdir, "free.scen")))
+        if prop in ("C01", "C02", "C03"):
+            jobs.append((["sched", "-free", "-family", "listener", "-count", str(FREE_LISTENER[tier]), "-seed", str(seed * 37 + 11),
+                          "-first", str(first + FREE[tier])],
+                         os.path.join(tdir, "listener-free.ndjson"), os.path.join(tdir, "listener-free.scen")))
 
     def do_job(j):
         args, tp, dp = j
